@@ -110,6 +110,7 @@ def run_real(scn, choose):
         import random as _random
         sched.fine = _random.Random(scn["fine_seed"])
         sched.fine_p = scn.get("fine_p", 0.15)
+        sched.fine_focus = set(scn.get("fine_focus") or []) or None
         sched.max_chunks = 200000
     sock = shim.Socket()
     saved = shim.install(sched, sock, cpu=8)
@@ -614,6 +615,17 @@ def oracle_c02(run, A, V):
                 made = any(c["rid"] == rid and c["m"] == "usb" for c in A.calls)
                 if made != bool(p_ok):
                     V("unsubscribe-pairing", "USB %s: unsubscribe called=%s but preceding SUB %s succeeded=%s" % (rid, made, p, bool(p_ok)))
+        # pairing at rest: an unsubscription request that arrived after a subscription the adapter accepted leads to the matching
+        # unsubscribe call (it is not silently dropped, which would leave the adapter subscribed and let the next subscribe
+        # follow a subscribe)
+        if run.status == "quiescent" and all(r in A.arrive for r in rids):
+            for i, rid in enumerate(rids):
+                if A.req[rid]["method"] == "USB" and i > 0 and rid not in A.task:
+                    p = rids[i - 1]
+                    pcalls = [c for c in A.calls if c["rid"] == p and c["m"] == "sub"]
+                    if A.task.get(p) is not None and A.task[p]["kind"] == "do" and pcalls and pcalls[0]["out"] == "ok":
+                        V("unsubscribe-never-invoked", "USB %s arrived after the successful subscription %s of %s, everything is at rest, but unsubscribe "
+                          "was never invoked for it" % (rid, p, item))
 
 
 def event_lines(A):
